@@ -55,7 +55,7 @@ def gen_vars(rng):
 def gen_sa(rng, allow_carry, catchall_p=0.85):
   sa = []
   for _ in range(rng.randint(0, 3)):
-    s = rng.choice([0, 0, 1, None, None, 'carry'] if allow_carry else [0, 0, 1, None, None])
+    s = rng.choice([0, 0, 1, 2, -1, None, None, 'carry'] if allow_carry else [0, 0, 1, 2, -1, None, None])
     sa.append([gen_filter(rng), s])
   if rng.random() < catchall_p:
     sa.append([{'ellipsis': 1}, rng.choice([None, None, 0] + (['carry'] if allow_carry else []))])
@@ -74,7 +74,7 @@ def fill_values(rng, vars_, sa, n):
   for v in vars_:
     s = spec_of(sa, v)
     if isinstance(s, int):
-      rank = rng.randint(s + 1, 3)
+      rank = rng.randint(s + 1, 3) if s >= 0 else rng.randint(1, 3)
       shape = [rng.randint(1, 3) for _ in range(rank)]
       shape[s] = n
     else:
@@ -129,7 +129,7 @@ def gen_body(rng, vars_, kind):
 
 
 def cleaf(v):
-  return '(mkLeaf %s %s None 0%%N)' % (clist([GP.ckey(k) for k in v['path']]), clist([cN(GP.VARTY[t]) for t in MRO[v['type']]]))
+  return '(mkLeaf %s %s None 0%%N)' % (clist([(cN(k) if isinstance(k, int) else GP.ckey(k)) for k in v['path']]), clist([cN(GP.VARTY[t]) for t in MRO[v['type']]]))
 
 
 def flat(x):
@@ -154,7 +154,7 @@ def cvval_obs(o):
 
 
 def cspec(s):
-  return 'SNone' if s is None else 'SCarry' if s == 'carry' else '(SAxis %s)' % cnat(s)
+  return 'SNone' if s is None else 'SCarry' if s == 'carry' else '(SAxis %s)' % cnat(s if s >= 0 else 9)     # the model does not use the position (slices representation)
 
 
 def csa(sa):
@@ -212,10 +212,10 @@ def cgexp(e):
   return '(%s %s %s)' % ('GAdd' if k == 'add' else 'GMul', cgexp(e[1]), cgexp(e[2]))
 
 
-def batched_none_write(c):
+def batched_none_write(c, carry_varies=False):
   """does the body write a value computed from the mapped input or an axis-group Variable into a None-group Variable?"""
   tv = [isinstance(v['spec'], int) for v in c['vars']]
-  tc = False
+  tc = carry_varies
 
   def t(e):
     k = e[0]
@@ -263,10 +263,13 @@ def run(chk):
     for v in vars_:
       v['val'] = rng.randint(-3, 4)
       v['spec'] = None
-    nv = len(vars_)
+    two = rng.random() < 0.35
+    for v in vars_:
+      v['val2'] = rng.randint(-3, 4)
+    nv = len(vars_) * (2 if two else 1)
     ds = rng.random() < 0.6
     gr.append({'vars': vars_, 'loss': gen_gexp(rng, nv), 'x': rng.randint(-3, 3), 'wrt': gen_filter(rng) if ds else {'type': 'Param'}, 'diffstate': ds,
-               'has_aux': rng.random() < 0.3, 'value_and_grad': rng.random() < 0.5,
+               'has_aux': rng.random() < 0.3, 'value_and_grad': rng.random() < 0.5, 'two': two,
                'bumps': sorted(set(rng.randrange(nv) for _ in range(rng.randint(0, 2))))})
   W = 12
   results = common.run_impl_parallel('impl_c08.py', [{'vmap': vm[i::W], 'scan': sc[i::W], 'grad': gr[i::W]} for i in range(W)], workers=W, timeout=3000)
@@ -339,9 +342,17 @@ def run(chk):
                     'forward-pass side effects applied once, identity of the Variables)', {'case': c, 'impl': impl, 'reference': ref})
       continue
     r = impl['ok']
-    exp_g = clist([cpair(clist([GP.ckey(k) for k in p]), cZ(int(g))) for p, g in r['grads']])
+    def gkey(k):
+      return cN(k) if isinstance(k, int) else GP.ckey(k)
+    exp_g = clist([cpair(clist([gkey(k) for k in p]), cZ(int(g))) for p, g in r['grads']])
+    if c.get('two'):
+      leaves = [cleaf(dict(v, path=[k] + v['path'])) for k in range(2) for v in c['vars']]
+      vals0 = [v['val'] for v in c['vars']] + [v['val2'] for v in c['vars']]
+    else:
+      leaves = [cleaf(v) for v in c['vars']]
+      vals0 = [v['val'] for v in c['vars']]
     row = ('(let r := grad_model %s %s %s %s %s %s in list_beq (pair_beq (list_beq N.eqb) Z.eqb) (g_grads r) %s && list_beq Z.eqb (g_counters r) %s%s)' % (
-        GP.cfilt(c['wrt']), clist([cleaf(v) for v in c['vars']]), clist([cZ(v['val']) for v in c['vars']]), cZ(c['x']), cgexp(c['loss']), clist([cnat(i) for i in c['bumps']]),
+        GP.cfilt(c['wrt']), clist(leaves), clist([cZ(z) for z in vals0]), cZ(c['x']), cgexp(c['loss']), clist([cnat(i) for i in c['bumps']]),
         exp_g, clist([cZ(int(v)) for v in r['vals']]), (' && Z.eqb (g_value r) %s' % cZ(int(r['value']))) if r['value'] is not None else ''))
     rows.append((('grad', c, o), row))
   chk.sample({'vmap_case': vm[0], 'observed': vres[0]})
